@@ -245,4 +245,17 @@ theorem nanosOfDayToDuration_tie (d : BitVec 64) :
   simp only [slt_toInt, toInt_zero64, toInt_timeMax]
   split <;> rename_i h <;> simp at h <;> simp [h]
 
+/-- `ConvertTimeToNanosOfDay` as written: on clock fields within their ranges nothing wraps and the result is the count of
+    nanoseconds since midnight -/
+theorem nanosOfDay_tie (ns s m h : BitVec 64) (hns : ns.toNat < 1000000000) (hs : s.toNat < 60) (hm : m.toNat < 60)
+    (hh : h.toNat < 24) :
+    (ConvertTimeToNanosOfDay ns s m h).toNat =
+      ns.toNat + s.toNat * 1000000000 + m.toNat * 60000000000 + h.toNat * 3600000000000 := by
+  rw [ConvertTimeToNanosOfDay]
+  have e1 : (1000000000#64 : BitVec 64).toNat = 1000000000 := rfl
+  have e2 : (60000000000#64 : BitVec 64).toNat = 60000000000 := rfl
+  have e3 : (3600000000000#64 : BitVec 64).toNat = 3600000000000 := rfl
+  rw [BitVec.toNat_add, BitVec.toNat_add, BitVec.toNat_add, BitVec.toNat_mul, BitVec.toNat_mul, BitVec.toNat_mul, e1, e2, e3]
+  omega
+
 end Cql.GoFnTie
